@@ -225,10 +225,11 @@ aliquot_intervener_remover_regex = re.compile(
     fr"""
     (?P<aliquot1>({aliquot_simple})+)  # first aliquot component
     (
-        \s*     # any amount of whitespace (to be removed)
+        # any amount of whitespace on the same line (to be removed)
+        [^\S\r\n]*
         
         # 'of the' or 'of' (to be removed)
-        (\s+|of|o|f|o+f+)\s*(t+h+e+|t+e+h+|t+h+|t+)?
+        ([^\S\r\n]+|of|o|f|o+f+)\s*(t+h+e+|t+e+h+|t+h+|t+)?
         
         \s*     # any amount of whitespace (to be removed)
     )
